@@ -895,7 +895,16 @@ class VExec(Exec):
                     outcome = ('return', fr.locals['__yielded__'] if '__yielded__' in fr.locals else
                                ys if ys is not None else self.alloc(HList(fr.locals['__yield__'])))
             except ReturnSig as r:
-                outcome = ('return', fr.locals['__yielded__'] if '__yielded__' in fr.locals else r.value)
+                rv = r.value
+                if type(rv).__name__ == 'VLazy':
+                    # the function hands a lazy iterator to its caller: what the caller gets out of it is the function's result (bounded, refutations only)
+                    try:
+                        rv = I.drain_lazy(rv)
+                    except PyRaise as pr2:
+                        rv = None
+                        outcome = ('raise', pr2.exc)
+                if outcome is None:
+                    outcome = ('return', fr.locals['__yielded__'] if '__yielded__' in fr.locals else rv)
             except PyRaise as pr:
                 outcome = ('raise', pr.exc)
             except Vanish as v:
